@@ -22,6 +22,45 @@ theorem stepUp_ps (h : PsInv rec) (rest : List Str) (fl : FL) (ps : PS) :
   unfold stepUp
   split <;> simp [h _ _ _ _]
 
+/-- the comparison of a `text()` condition (fix C19-f) raises nothing: the only "error" of the model
+is its own scope marker (a float node, `lower()` beyond ASCII) -/
+theorem textEq_err {node : Val} {v : Str} {e : PyErr} (h : textEq node v = .error e) : e = .Unsupported := by
+  unfold textEq at h
+  split at h
+  · split at h
+    · cases h; rfl
+    · cases h
+  · split at h
+    · split at h
+      · cases h
+      · cases h; rfl
+    · split at h
+      · cases h; rfl
+      · cases h
+  all_goals cases h
+
+/-- the shape of a `text()` step: scope marker, a miss of this branch, or the recursive call on the
+same node with the same list object and the node registered in a copy of the stack -/
+theorem stepText_cases (rec : Val → List Str → FL → PS → Out) (node : Val) (rest : List Str) (eq : Bool) (v : Str)
+    (fl : FL) (ps : PS) :
+    stepText rec node rest eq v fl ps = ⟨.error .Unsupported, fl, ps⟩ ∨
+    stepText rec node rest eq v fl ps = ⟨.ok Option.none, fl, ps⟩ ∨
+    (textEq node v = .ok eq ∧
+      stepText rec node rest eq v fl ps =
+        ⟨(rec node rest fl (push ps fl node)).res, (rec node rest fl (push ps fl node)).fl, ps⟩) := by
+  unfold stepText
+  split
+  · rename_i e he
+    cases textEq_err he
+    exact Or.inl rfl
+  · rename_i b hb
+    split
+    · exact Or.inr (Or.inl rfl)
+    · rename_i hne
+      refine Or.inr (Or.inr ⟨?_, rfl⟩)
+      rw [hb]
+      cases b <;> cases eq <;> simp_all
+
 theorem stepText_ps (node : Val) (rest : List Str) (eq : Bool) (v : Str) (fl : FL) (ps : PS) :
     (stepText rec node rest eq v fl ps).ps = ps := by
   unfold stepText
@@ -152,7 +191,7 @@ theorem runHistM_fresh (fuel : Nat) (h : List (Val × Str × Bool)) :
 With `raise_exception=False` every `raise IndexError` / `raise KeyError` of `_findall` is replaced
 by `return None` (`raiseOr`), and since fix C19-d the last branch (a step on a final element) is a
 miss too.  What can still be raised are the errors of the expression itself (`classify`:
-`TypeError`, `ValueError`, `SyntaxError`) and `AttributeError` (`text()` on a non-string). -/
+`TypeError`, `ValueError`, `SyntaxError`); since fix C19-f a `text()` step raises nothing itself. -/
 
 /-- the outcome is not one of the two exceptions `_findall` uses for "not there" -/
 def NoMiss (r : PyM (Option Found)) : Prop := r ≠ .error .IndexError ∧ r ≠ .error .KeyError
@@ -260,14 +299,10 @@ theorem stepUp_noMiss (rest : List Str) (fl : FL) (ps : PS) : NoMiss (stepUp rec
 
 theorem stepText_noMiss (node : Val) (rest : List Str) (eq : Bool) (v : Str) (fl : FL) (ps : PS) :
     NoMiss (stepText rec node rest eq v fl ps).res := by
-  unfold stepText
-  split
-  · split
-    · exact noMiss_err _ (by decide) (by decide)
-    · split
-      · exact noMiss_ok _
-      · exact hr _ _ _ _
+  rcases stepText_cases rec node rest eq v fl ps with h | h | ⟨_, h⟩ <;> rw [h]
   · exact noMiss_err _ (by decide) (by decide)
+  · exact noMiss_ok _
+  · exact hr _ _ _ _
 
 theorem stepIdx_noMiss (node : Val) (rest : List Str) (i : Int) (fl : FL) (ps : PS) :
     NoMiss (stepIdx rec false node rest i fl ps).res := by
@@ -332,6 +367,186 @@ theorem fa_noMiss : ∀ (fuel : Nat), RecNoMiss (fa false fuel) := by
   induction fuel with
   | zero => intro n t f p; exact noMiss_err _ (by decide) (by decide)
   | succ k ih => intro n t f p; exact step_noMiss ih n t f p
+
+/-! ## which exceptions a search can raise at all (fix C19-f: never AttributeError)
+
+Every exception of `_findall` is either an exception of a token itself (`classify`: TypeError,
+ValueError, SyntaxError; `Unsupported` is the scope marker of the model) or — only with
+`raise_exception=True` — one of the two signals for "not there" (IndexError, KeyError).  Since fix
+C19-f the `text()` branch raises nothing: before it `parent_node.lower()` raised AttributeError for
+every node that is not a string, in both modes. -/
+
+/-- every exception of the outcome satisfies `Q` -/
+def FaErrIn (Q : PyErr → Prop) (r : PyM (Option Found)) : Prop := ∀ e, r = .error e → Q e
+
+theorem faErrIn_ok {Q : PyErr → Prop} (f : Option Found) : FaErrIn Q (.ok f) := by intro e h; cases h
+theorem faErrIn_err {Q : PyErr → Prop} {e : PyErr} (h : Q e) : FaErrIn Q (.error e) := by
+  intro e' h'; cases h'; exact h
+theorem faErrIn_raiseOr {Q : PyErr → Prop} (re : Bool) (e : PyErr) (h : re = true → Q e) :
+    FaErrIn Q (raiseOr re e) := by
+  cases re
+  · exact faErrIn_ok _
+  · exact faErrIn_err (h rfl)
+
+/-- the exceptions of a token itself (`Unsupported` = outside the model's scope) -/
+def FaTokErr (e : PyErr) : Prop := e = .TypeError ∨ e = .ValueError ∨ e = .SyntaxError ∨ e = .Unsupported
+
+def FaStepIn (s : Step) : Prop := ∀ e, s = .fail e → FaTokErr e
+theorem faStepIn_ite (c : Prop) [Decidable c] (a b : Step) (ha : FaStepIn a) (hb : FaStepIn b) :
+    FaStepIn (if c then a else b) := by split <;> assumption
+theorem faStepIn_up : FaStepIn .up := by intro e h; cases h
+theorem faStepIn_star : FaStepIn .star := by intro e h; cases h
+theorem faStepIn_name (n : Str) : FaStepIn (.name n) := by intro e h; cases h
+theorem faStepIn_idx (n : Int) : FaStepIn (.idx n) := by intro e h; cases h
+theorem faStepIn_text (b : Bool) (n : Str) : FaStepIn (.text b n) := by intro e h; cases h
+theorem faStepIn_fail (e : PyErr) (h : FaTokErr e) : FaStepIn (.fail e) := by intro e' h'; cases h'; exact h
+
+/-- a token fails only with TypeError (malformed bracket, unknown condition), ValueError (`int()`, the
+unpacking of the `split`), SyntaxError (`eval` of `last()…`) -/
+theorem classify_fail_kind (tok : Str) : FaStepIn (classify tok) := by
+  unfold classify
+  refine faStepIn_ite _ _ _ faStepIn_up ?_
+  refine faStepIn_ite _ _ _ ?_ (faStepIn_name _)
+  refine faStepIn_ite _ _ _ (faStepIn_fail _ (by simp [FaTokErr])) ?_
+  refine faStepIn_ite _ _ _ (faStepIn_fail _ (by simp [FaTokErr])) ?_
+  refine faStepIn_ite _ _ _ ?_ ?_
+  · generalize XPath.pyInt _ = x
+    cases x
+    · exact faStepIn_fail _ (by simp [FaTokErr])
+    · exact faStepIn_idx _
+  refine faStepIn_ite _ _ _ faStepIn_star ?_
+  refine faStepIn_ite _ _ _ ?_ ?_
+  · generalize evalLast _ = x
+    cases x
+    · exact faStepIn_fail _ (by simp [FaTokErr])
+    · exact faStepIn_idx _
+  refine faStepIn_ite _ _ _ ?_ (faStepIn_fail _ (by simp [FaTokErr]))
+  dsimp only
+  generalize (if startsWith _ ['=', '='] = true then some (true, ['=', '=']) else _ : Option (Bool × Str)) = c
+  cases c with
+  | none => exact faStepIn_fail _ (by simp [FaTokErr])
+  | some p =>
+    obtain ⟨eq, delim⟩ := p
+    dsimp only
+    generalize XPath.splitOnce _ _ = y
+    cases y with
+    | none => exact faStepIn_fail _ (by simp [FaTokErr])
+    | some q => exact faStepIn_text _ _
+
+theorem starLoop_errIn {Q : PyErr → Prop} (call : Val → FL → Out) (re : Bool) (last : Str)
+    (hI : re = true → Q .IndexError) (hc : ∀ c cur, FaErrIn Q (call c cur).res) :
+    ∀ (xs : List Val) (i : Nat) (cur : FL) (acc : Found), FaErrIn Q (starLoop call re last i xs cur acc).1 := by
+  intro xs
+  induction xs with
+  | nil => intro i cur acc; exact faErrIn_ok _
+  | cons c cs ih =>
+    intro i cur acc
+    unfold starLoop
+    split
+    · have h := hc c (setLast cur (last ++ XPath.bracket (natRepr i)))
+      dsimp only
+      split
+      · next e he => rw [he] at h; exact h
+      · exact ih _ _ _
+    · exact faErrIn_raiseOr _ _ hI
+
+theorem keysLoop_errIn {Q : PyErr → Prop} (call : Str → Val → Out) (hc : ∀ k c, FaErrIn Q (call k c).res) :
+    ∀ (kvs : List (Str × Val)) (acc : Found), FaErrIn Q (keysLoop call kvs acc) := by
+  intro kvs
+  induction kvs with
+  | nil => intro acc; exact faErrIn_ok _
+  | cons kc rest ih =>
+    intro acc
+    obtain ⟨k, c⟩ := kc
+    unfold keysLoop
+    split
+    · have h := hc k c
+      split
+      · next e he => rw [he] at h; exact h
+      · exact ih _
+    · exact ih _
+
+section
+variable {rec : Val → List Str → FL → PS → Out} {Q : PyErr → Prop} (re : Bool)
+  (hr : ∀ n t f p, FaErrIn Q (rec n t f p).res)
+  (hT : ∀ e, FaTokErr e → Q e) (hI : re = true → Q .IndexError) (hK : re = true → Q .KeyError)
+include hr hT hI hK
+
+theorem step_errIn (node : Val) (toks : List Str) (fl : FL) (ps : PS) :
+    FaErrIn Q (step rec re node toks fl ps).res := by
+  have hU : Q .Unsupported := hT _ (by simp [FaTokErr])
+  unfold step
+  split
+  · exact faErrIn_ok _
+  · next tok rest =>
+    split
+    · -- '..'
+      unfold stepUp
+      split
+      · exact faErrIn_raiseOr _ _ hK
+      · exact hr _ _ _ _
+    · next e he => exact faErrIn_err (hT e (classify_fail_kind tok e he))
+    · -- text(): raises nothing itself
+      rcases stepText_cases rec node rest _ _ fl ps with h | h | ⟨_, h⟩ <;> rw [h]
+      · exact faErrIn_err hU
+      · exact faErrIn_ok _
+      · exact hr _ _ _ _
+    · -- index
+      unfold stepIdx
+      split
+      · split
+        · exact faErrIn_raiseOr _ _ hI
+        · split
+          · exact faErrIn_err hU
+          · split
+            · exact hr _ _ _ _
+            · exact faErrIn_raiseOr _ _ hI
+      · split
+        · exact faErrIn_raiseOr _ _ hI
+        · exact faErrIn_raiseOr _ _ hK
+      · exact faErrIn_ok _
+    · -- [*]
+      unfold stepStar
+      split
+      · exact starLoop_errIn _ _ _ hI (fun c cur => hr _ _ _ _) _ _ _ _
+      · exact faErrIn_raiseOr _ _ hI
+      · exact faErrIn_ok _
+    · -- name
+      unfold stepName
+      split
+      · exact hr _ _ _ _
+      · split
+        · exact faErrIn_raiseOr _ _ hK
+        · split
+          · dsimp only
+            split
+            · next e he => rw [← he]; exact hr _ _ _ _
+            · exact keysLoop_errIn _ (fun k c => hr _ _ _ _) _ _
+          · split
+            · exact hr _ _ _ _
+            · exact faErrIn_ok _
+      · exact faErrIn_ok _
+
+end
+
+/-- **every exception of `_findall`** is an exception of a token (or the fuel / scope marker of the
+model) or, with `raise_exception=True` only, IndexError / KeyError -/
+theorem fa_errIn (re : Bool) {Q : PyErr → Prop} (hF : Q .OutOfFuel) (hT : ∀ e, FaTokErr e → Q e)
+    (hI : re = true → Q .IndexError) (hK : re = true → Q .KeyError) :
+    ∀ (fuel : Nat) (n : Val) (t : List Str) (f : FL) (p : PS), FaErrIn Q (fa re fuel n t f p).res := by
+  intro fuel
+  induction fuel with
+  | zero => intro n t f p; exact faErrIn_err hF
+  | succ k ih => intro n t f p; exact step_errIn re ih hT hI hK n t f p
+
+/-- **no search raises AttributeError** (fix C19-f), whatever the tree, the expression, the objects
+received and the mode are -/
+theorem fa_no_attribute_error (re : Bool) (fuel : Nat) (n : Val) (t : List Str) (f : FL) (p : PS) :
+    (fa re fuel n t f p).res ≠ .error .AttributeError := by
+  intro h
+  exact fa_errIn re (Q := fun e => e ≠ .AttributeError) (by decide)
+    (by intro e he; rcases he with h | h | h | h <;> rw [h] <;> decide) (fun _ => by decide) (fun _ => by decide)
+    fuel n t f p _ h rfl
 
 /-! ## classification of the two kinds of step an exact path consists of -/
 open N0.XPath in
@@ -828,14 +1043,10 @@ theorem step_sub {t : Val} {rec : Val → List Str → FL → PS → Out} (hr : 
           exact hr _ _ _ _ (hps _ hm) hps f h
     · cases h
     · -- text()
-      unfold stepText at h
-      split at h
-      · split at h
-        · cases h
-        · split at h
-          · cases h
-          · exact hr _ _ _ _ hn (hps.push _ hn) f h
+      rcases stepText_cases rec node _ _ _ fl ps with h' | h' | ⟨_, h'⟩ <;> rw [h'] at h
       · cases h
+      · cases h
+      · exact hr _ _ _ _ hn (hps.push _ hn) f h
     · -- index
       unfold stepIdx at h
       split at h
